@@ -1,0 +1,18 @@
+// Copyright 2026 Juan Pablo Tosso and the OWASP Coraza contributors
+// SPDX-License-Identifier: Apache-2.0
+
+//go:build verif
+
+package transformations
+
+import "sort"
+
+// VerifNames lists the registered transformation names (verification tooling only).
+func VerifNames() []string {
+	out := make([]string, 0, len(transformations))
+	for k := range transformations {
+		out = append(out, k)
+	}
+	sort.Strings(out)
+	return out
+}
